@@ -289,9 +289,7 @@ func RunPOR(prefix []int, sleepAt int, sleep []SleepEntry, opt Options, body fun
 	t0.started = true
 	t0.wake <- struct{}{}
 	<-s.finished
-	if !s.aborted {
-		s.wg.Wait()
-	}
+	s.join()
 	s.por.closeTransition()
 	active = nil
 	x := &PORExecution{Steps: s.por.steps, Pruned: s.por.pruned}
